@@ -294,7 +294,8 @@ class C11(PropertyCheck):
         valid = [1 if rng.random() < 0.6 else 0 for _ in range(V)]
         if rng.random() < 0.05:
             valid = [0] * V
-        c = {"kind": "g", "V": V, "e": edges, "seeds": seeds, "valid": valid, "sym": bool(sym)}
+        c = {"kind": "g", "V": V, "e": edges, "seeds": seeds, "valid": valid, "sym": bool(sym),
+             "edtype": rng.choice([None, None, None, "int32", "int16", "uint8", "int8", "uint16", "int64"])}
         if big:
             c["big"] = True
         return c
@@ -365,7 +366,12 @@ class C11(PropertyCheck):
         whatever a query may memoise, every mutation is followed by at least one shortest-path query"""
         V = rng.choice([2, 3, 4, 4, 5, 6, 8])
         style = rng.choice(["sym", "symedges", "directed"])
-        edges = self._rand_graph(rng, V, style != "directed", rng.choice([0.3, 0.5, 0.8]))
+        wide = rng.random() < 0.12
+        if wide:      # more vertices than a narrow index type can square: V*V > 255 (uint8), sparse edges
+            V = rng.choice([17, 20, 24, 33, 40])
+            edges = self._rand_graph(rng, V, style != "directed", big=True)
+        else:
+            edges = self._rand_graph(rng, V, style != "directed", rng.choice([0.3, 0.5, 0.8]))
         if style == "symedges":        # symmetric edge set, asymmetric weights: symmeterize keeps E
             edges = [[u, v, rng.choice(WCHOICES[1:])] for u, v, _ in edges]
         if rng.random() < 0.5:         # no stored zero: the E-preserving operations really keep E
@@ -388,7 +394,9 @@ class C11(PropertyCheck):
             qs = [rng.choice(["dij", "floyd", "vor"])] + [rng.choice(self.QUERIES) for _ in range(rng.choice([0, 1, 2]))]
             for qn in qs:
                 steps.append([qn, [rng.randrange(8) for _ in range(rng.choice([1, 2, 3]))]])
-        return {"kind": "hist", "V": V, "e": edges, "steps": steps}
+        return {"kind": "hist", "V": V, "e": edges, "steps": steps,
+                # how the caller stores the edge indices (label / mesh files give narrow integer types, SciPy int32)
+                "edtype": rng.choice([None, None, None, "int32", "int16", "uint8", "int8", "uint16", "int64"])}
 
     def generate(self, rng, tier):
         q = tier == "quick"
@@ -505,6 +513,7 @@ class C11(PropertyCheck):
         import warnings
         warnings.filterwarnings("ignore")
         from nipy.algorithms.graph import graph as G
+        self._edtype = case.get("edtype")
         if case["kind"] == "bip":
             return M2.bip_case(case)
         if case["kind"] == "vd":
@@ -512,9 +521,14 @@ class C11(PropertyCheck):
         return getattr(self, "_" + case["kind"])(case, G)
 
     # ---- graphs ------------------------------------------------------
+    _edtype = None
+
     def _mk(self, G, V, edges):
         if edges:
-            return G.WeightedGraph(V, np.array([[u, v] for u, v, _ in edges], dtype=np.intp),
+            dt = np.intp
+            if self._edtype and V - 1 <= np.iinfo(self._edtype).max:
+                dt = np.dtype(self._edtype)
+            return G.WeightedGraph(V, np.array([[u, v] for u, v, _ in edges], dtype=dt),
                                    np.array([w for _, _, w in edges], dtype=float))
         return G.WeightedGraph(V)
 
